@@ -209,6 +209,8 @@ def r5_state_release(ctx):
 
 
 def run(ctx):
+    from . import C09
+    C09.r4_close_body(ctx)   # session close drops every inbound sender, so blocked readers reach end-of-stream
     r1_fin_arm(ctx)
     r2_single_sender_owner(ctx)
     r3_eof_flag(ctx)
